@@ -59,6 +59,32 @@ type verifCase struct {
 	IntervalMs int         `json:"interval_ms"` // explicit interval option of the observed executor (0: 1s)
 	Before     []verifSpec `json:"before"`
 	Ops        []verifOp   `json:"ops"`
+	Less       *verifLess  `json:"less"` // a LessExecutor stream instead of a batching executor
+}
+
+// verifLess: NewLessExecutor(threshold); the virtual clock starts at Start and moves on by Steps[i] before call i.
+type verifLess struct {
+	Threshold int64   `json:"threshold"`
+	Start     int64   `json:"start"`
+	Steps     []int64 `json:"steps"`
+}
+
+func verifRunLess(l *verifLess) any {
+	timex.VerifSetNow(time.Duration(l.Start))
+	le := NewLessExecutor(time.Duration(l.Threshold))
+	out := make([][3]int64, 0, len(l.Steps))
+	ran := int64(0)
+	for _, d := range l.Steps {
+		now := timex.VerifAdvance(time.Duration(d))
+		before := ran
+		ok := le.DoOrDiscard(func() { ran++ })
+		res := int64(0)
+		if ok {
+			res = 1
+		}
+		out = append(out, [3]int64{int64(now), res, ran - before})
+	}
+	return map[string]any{"less": out}
 }
 
 // verifDormant never ticks.
@@ -735,6 +761,9 @@ func TestVerifDriver(t *testing.T) {
 		var c verifCase
 		if err := json.Unmarshal(raw, &c); err != nil {
 			return map[string]any{"error": err.Error()}
+		}
+		if c.Less != nil {
+			return verifRunLess(c.Less)
 		}
 		timex.VerifSetNow(time.Hour)
 		r := verifNewRig(c)
